@@ -446,6 +446,7 @@ type FuncSpec struct {
 	Uses     []*CE // axiom / lemma instantiations assumed at entry
 	UsesRet  []*CE // ... assumed at every return (post-state, results in scope)
 	Closures map[int]*ClosureSpec
+	Defines  []*Clause // "defines r == f(args)": names the result of a deterministic, heap-independent function
 	Props    []string
 	Body     *CE    // define / axiom body
 	RetSort  string // define result sort
@@ -650,7 +651,7 @@ func loadSpecs(repo, verifDir string) (*Specs, error) {
 			}
 		}
 	}
-	for _, sf := range []string{"le(B,B) Bool", "lt(B,B) Bool", "pre(B,B) Bool", "cat(B,B) B", "blen(B) Int", "cmp(B,B) Int", "dyn(Int) Int",
+	for _, sf := range []string{"le(B,B) Bool", "lt(B,B) Bool", "pre(B,B) Bool", "cat(B,B) B", "blen(B) Int", "cmp(B,B) Int", "dyn(Int) Int", "kindcode(Any) Int",
 		"flt(F64,F64) Bool", "fle(F64,F64) Bool", "feq(F64,F64) Bool", "fadd(F64,F64) F64", "fsub(F64,F64) F64", "fmul(F64,F64) F64", "fdiv(F64,F64) F64", "i2f(Int) F64", "f2i(F64) Int"} {
 		f, _ := parseSpecFunSig(sf)
 		sp.SpecFuns[f.Name] = f
@@ -845,6 +846,12 @@ func (sp *Specs) parseFile(path string) error {
 					return err
 				}
 				cur.Ensures = append(cur.Ensures, c)
+			case "defines":
+				c, err := mkClause("defines")
+				if err != nil {
+					return err
+				}
+				cur.Defines = append(cur.Defines, c)
 			case "assigns":
 				cur.HasAsg = true
 				if rest != "nothing" {
